@@ -80,6 +80,13 @@ def laid_out(files: dict | None, src: str, layout: str) -> tuple[dict, str]:
     """layout 'cwd': the source is ./t.s; 'subdir': the source is proj/src/t.s (named relative to the working directory) and a decoy
     of every referenced file stands next to it - quoted paths stay relative to the working directory, as for the in-memory API."""
     all_files = dict(files or {})
+    if layout == "crlf":
+        # the same text as an editor on Windows saves it
+        for k, v in list(all_files.items()):
+            if isinstance(v, str):
+                all_files[k] = v.replace("\n", "\r\n")
+        all_files["t.s"] = src.replace("\n", "\r\n")
+        return all_files, "t.s"
     if layout == "subdir":
         for k, v in list(all_files.items()):
             all_files[os.path.join("proj/src", k)] = decoy(v)
